@@ -228,7 +228,7 @@ def path_histories(ctx):
     exts = ["-", hx("a"), hx(".a"), hx("b"), hx("."), hx("a.b"), hx(".a.b"), hx("ab"), hx("/a"), hx("gz"), hx("tar.gz")]
     ext_h = [[f"base {hx(p)} {e}", f"stem {hx(p)} {e}"] for p in all_strings(4 if quick else 5) for e in exts[1:6]]
     rnd = []
-    for _ in range(3000 if quick else 40000):
+    for _ in range(6000 if quick else 100000):
         p, q = rand_path(rng), rand_path(rng)
         rnd.append(unary_history(p, exts=[rng.choice(exts), rng.choice(exts)]) + [f"rel {hx(p)} {hx(q)}", f"rel {hx(q)} {hx(p)}"])
     ctx.cov["exhaustive"] = True
@@ -470,9 +470,12 @@ def fs_reference(hist, impl):
                 bad = "copy reported success but destination bytes differ from the source"
         if not bad and op == "fsrename" and r0 == "1":
             src = py_resolve(tree, unhx(t[1]), False)
-            dst = py_resolve(after, unhx(t[2]), False)
-            if src[0] != "found" or dst[0] != "found" or dst[2] != src[2]:
+            dst = py_resolve(tree, unhx(t[2]), False)      # canonical destination: resolved in the world BEFORE the move
+            key = dst[1] if dst[0] == "found" else ((dst[1] + "/" + dst[2]) if dst[1] else dst[2]) if dst[0] == "missing" else None
+            if src[0] != "found" or key is None or after.get(key) != src[2]:
                 bad = "rename reported success but the destination is not the old source"
+            elif key != src[1] and src[1] in after:
+                bad = "rename reported success but the source is still there"
         if not bad and op == "fsrmdir":
             rr = py_resolve(tree, unhx(t[1]), False)
             if r0 == "1":
@@ -672,10 +675,10 @@ def fs_histories(ctx):
     pairs = [FS_FIXTURE + [a, b] for a in FS_SMALL for b in FS_SMALL]
     if quick:
         rng.shuffle(pairs)
-        pairs = pairs[:500]
-    rnd = [fs_random_history(rng, rng.choice([5, 10, 20, 30])) for _ in range(500 if quick else 12000)]
+        pairs = pairs[:1500]
+    rnd = [fs_random_history(rng, rng.choice([5, 10, 20, 30])) for _ in range(1500 if quick else 60000)]
     ctx.cov["fs_scope"] = (f"fs: fixture tree (file, sub-directory, links to the outside sentinel directory/file/nothing, inner link) + every op of a "
-                           f"{len(FS_SMALL)}-op alphabet ({len(ex)}) + {'500 sampled' if quick else 'all ' + str(len(pairs))} pairs + {len(rnd)} random histories "
+                           f"{len(FS_SMALL)}-op alphabet ({len(ex)}) + {'1500 sampled' if quick else 'all ' + str(len(pairs))} pairs + {len(rnd)} random histories "
                            "(random trees; paths with '.', '..', '//', absolute, through inner links; outside links only as final component of non-writing ops)")
     return ex + pairs + rnd
 
